@@ -46,7 +46,8 @@ def carried_consumer_gens(op):
     k = op['kind']
     b = op.get('b')
     if k == 'alloc_put':
-        return {op['p'].rsplit('/', 1)[1]: b.get('consumer_generation')}
+        return {M.canon_uuid(op['p'].rsplit('/', 1)[1]):
+                b.get('consumer_generation')}
     if k == 'alloc_post':
         return {c: d.get('consumer_generation') for c, d in b.items()}
     if k == 'reshape':
@@ -59,13 +60,13 @@ def written_consumers(op):
     k = op['kind']
     b = op.get('b')
     if k == 'alloc_put':
-        return [op['p'].rsplit('/', 1)[1]]
+        return [M.canon_uuid(op['p'].rsplit('/', 1)[1])]
     if k == 'alloc_post':
         return list(b)
     if k == 'reshape':
         return list(b['allocations'])
     if k == 'alloc_delete':
-        return [op['p'].rsplit('/', 1)[1]]
+        return [M.canon_uuid(op['p'].rsplit('/', 1)[1])]
     return []
 
 
